@@ -203,6 +203,20 @@ func r08_1(c *Ctx) {
 			return ok && e.Index == 0 && e.Tuple == ssa.Value(ens)
 		}
 		c.check(guardedByNil(fn, enq.Block(), isEnsErr, true), name+":ensureID-guard", P.ipos(enq), "enqueue only when ensureID returned no error", "a message rejected by ensureID (missing/forbidden ID) can be stored")
+		// ensureID consumes an automatic ID: once it succeeded the message must be stored on every path
+		{
+			leak := false
+			for _, ifi := range ifsIn(fn) {
+				if s, ok := nilEdge(ifi, isEnsErr); ok {
+					for _, ret := range returnsOf(fn) {
+						if reachesAvoiding(atEdge(ifi.Block(), s), ret, func(in ssa.Instruction) bool { return in == ssa.Instruction(enq) }, nil) {
+							leak = true
+						}
+					}
+				}
+			}
+			c.check(!leak, name+":id-consumed-then-stored", P.ipos(ens), "after ensureID succeeded (an automatic ID was consumed) every path stores the message", "after ensureID succeeded a path returns without storing the message: a rejected Put consumes an automatic ID, so IDs are no longer consecutive in Put order (and the ID arithmetic of the lookup is off)")
+		}
 		// enqueued element: message = ensureID result, topics = parameter
 		elemOK := false
 		if len(enq.Call.Args) == 2 {
@@ -976,8 +990,9 @@ func r09_4(c *Ctx) {
 		c.bad(name+":full-test", P.pos(fn.Pos()), "Put does not test count == len(buf) before enqueueing")
 		return
 	}
-	skip := reachesAvoiding(atEdge(fullE.From, fullE.Idx), enq, func(in ssa.Instruction) bool { return in == ssa.Instruction(rs) }, nil)
-	c.check(!skip, name+":grow", P.ipos(rs), "on the full edge every path resizes before enqueue", "when the buffer is full a path reaches enqueue without resizing: the oldest unexpired event is overwritten")
+	// every path from the function entry to enqueue either resizes or passes the not-full edge of the test
+	skip := reachesAvoiding(entryPoint(fn), enq, func(in ssa.Instruction) bool { return in == ssa.Instruction(rs) }, map[cfgEdge]bool{{fullE.From, 1 - fullE.Idx}: true})
+	c.check(!skip, name+":grow", P.ipos(rs), "every path to enqueue either found count != len(buf) or resized first", "a path reaches enqueue without having resized and without having established that the buffer is not full: the oldest unexpired event is overwritten")
 	// and nothing on the not-full edge skips: enqueue reachable only via (not full) or (resize)
 	// the new capacity: len(buf)*k, k >= 2, possibly floored by a positive constant
 	capOK := true
@@ -1639,5 +1654,106 @@ func r19_3(c *Ctx) {
 	})
 	if n == 0 {
 		c.bad(fnLabel(fn)+":id-on-clone", P.pos(fn.Pos()), "ensureID never sets an ID")
+	}
+}
+
+// R18.5 (opportunistic, reports only a positively identified wrong order): when resize
+// linearises a wrapped ring with two copies into the fresh buffer, the copy to offset 0 must
+// read the older segment buf[head:] and the copy to the following offset the newer segment
+// buf[:tail]. Other shapes are not decided (ring arithmetic is outside this family).
+func init() {
+	register(&Rule{ID: "R18.5", Title: "resize linearises a wrapped ring oldest-segment first (opportunistic)", Floor: 1, Run: r18_5})
+	for _, id := range []string{"C09", "C18", "C04"} {
+		if p := properties[id]; p != nil {
+			p.Rules = append(p.Rules, "R18.5")
+			p.Explanation += " R18.5 (opportunistic) when resize copies a wrapped ring in two pieces, the piece placed first is buf[head:] (older events) and the second buf[:tail]; other shapes of resize are reported as not decided, not as violations."
+		}
+	}
+}
+
+func r18_5(c *Ctx) {
+	P := c.P
+	fn := queueMethod(P, "resize")
+	if fn == nil {
+		c.anchor("queue.resize")
+		return
+	}
+	var mk *ssa.MakeSlice
+	eachInstr(fn, func(in ssa.Instruction) {
+		if m, ok := in.(*ssa.MakeSlice); ok {
+			mk = m
+		}
+	})
+	type cp struct {
+		call    *ssa.Call
+		atZero  bool // destination is the fresh buffer itself
+		fromLow ssa.Value
+		fromHi  ssa.Value
+		srcBuf  bool
+	}
+	byBlock := map[*ssa.BasicBlock][]cp{}
+	eachInstr(fn, func(in ssa.Instruction) {
+		call, ok := in.(*ssa.Call)
+		if !ok {
+			return
+		}
+		b, ok := call.Call.Value.(*ssa.Builtin)
+		if !ok || b.Name() != "copy" || mk == nil {
+			return
+		}
+		dst, src := call.Call.Args[0], call.Call.Args[1]
+		x := cp{call: call}
+		switch d := dst.(type) {
+		case *ssa.MakeSlice:
+			x.atZero = d == mk
+		case *ssa.Slice:
+			if d.X != ssa.Value(mk) {
+				return
+			}
+			if d.Low == nil {
+				x.atZero = true
+			}
+		default:
+			return
+		}
+		if s, ok := src.(*ssa.Slice); ok {
+			if _, ok := isFieldLoad(s.X, "queue", "buf"); ok {
+				x.srcBuf = true
+				x.fromLow, x.fromHi = s.Low, s.High
+			}
+		}
+		byBlock[call.Block()] = append(byBlock[call.Block()], x)
+	})
+	isFld := func(v ssa.Value, f string) bool {
+		if v == nil {
+			return false
+		}
+		_, ok := isFieldLoad(v, "queue", f)
+		return ok
+	}
+	decided := false
+	for _, cps := range byBlock {
+		if len(cps) != 2 || !cps[0].srcBuf || !cps[1].srcBuf {
+			continue
+		}
+		first, second := cps[0], cps[1]
+		if !first.atZero || second.atZero {
+			continue
+		}
+		decided = true
+		name := fnLabel(fn) + ":wrapped-copy-order"
+		good := isFld(first.fromLow, "head") && first.fromHi == nil && second.fromLow == nil && isFld(second.fromHi, "tail")
+		wrong := first.fromLow == nil && isFld(first.fromHi, "tail") && isFld(second.fromLow, "head")
+		switch {
+		case good:
+			c.ok(name, P.ipos(first.call), "older segment buf[head:] first, then buf[:tail]")
+		case wrong:
+			c.bad(name, P.ipos(first.call), "the wrapped ring is linearised newer-segment first (buf[:tail] before buf[head:]): after a grow/shrink of a wrapped buffer events are stored out of Put order, so replay skips, duplicates or reorders events")
+		default:
+			c.ok(name, P.ipos(first.call), "two-piece copy of an unrecognised shape: order not decided")
+		}
+	}
+	if !decided {
+		c.ok(fnLabel(fn)+":wrapped-copy-order", P.pos(fn.Pos()), "resize does not use the two-copy idiom: order preservation is not decided by this rule")
 	}
 }
